@@ -75,8 +75,11 @@ pub fn gen_zone(r: &mut StdRng, apex: &str, class: u16, children: &[&str], o: Zo
     } else if has_soa {
         let soa_ttl = *[30u32, 300, 3600, 86400].choose(r).unwrap();
         let minimum = *[0u32, 60, 300, 7200].choose(r).unwrap();
-        let mut rd = w(&sub("ns"));
-        rd.extend(w(&sub("admin")));
+        // big zones, half of the time: an SOA whose MNAME and RNAME are long names elsewhere (nothing to compress them
+        // against): a negative answer for a long QNAME then does not fit 512 octets
+        let long_soa = o.big && r.gen_bool(0.5);
+        let mut rd = if long_soa { w(&format!("{}.{}.{}.primary.elsewhere.", "m".repeat(60), "n".repeat(60), "o".repeat(40))) } else { w(&sub("ns")) };
+        rd.extend(if long_soa { w(&format!("{}.{}.{}.hostmaster.other.", "h".repeat(60), "i".repeat(60), "j".repeat(40))) } else { w(&sub("admin")) });
         for v in [1u32, 2, 3, 4, minimum] { rd.extend_from_slice(&v.to_be_bytes()); }
         recs.push(Rec { owner: apex.into(), ty: 6, ttl: soa_ttl, rdata: rd });
     }
@@ -145,14 +148,21 @@ pub fn gen_zone(r: &mut StdRng, apex: &str, class: u16, children: &[&str], o: Zo
             for i in 0..*k {
                 recs.push(Rec { owner: nmx(i), ty: 5, ttl: 120 + i as u32, rdata: w(&rand_case(r, &nmx(i + 1))) });
             }
-            match r.gen_range(0..7) {
+            match r.gen_range(0..9) {
                 0 => recs.push(Rec { owner: nmx(*k), ty: 1, ttl: 99, rdata: addr_rdata(r, class) }),
                 1 => recs.push(Rec { owner: nmx(*k), ty: 16, ttl: 99, rdata: vec![1, b'x'] }),
                 2 => {} // target does not exist
                 3 => recs.push(Rec { owner: nmx(*k), ty: 5, ttl: 99, rdata: w("far.away.") }),
                 4 => if let Some(c) = children.first() { recs.push(Rec { owner: nmx(*k), ty: 5, ttl: 99, rdata: w(&format!("x.{}", c)) }) },
                 5 => { let j = r.gen_range(0..=*k); recs.push(Rec { owner: nmx(*k), ty: 5, ttl: 99, rdata: w(&nmx(j)) }) } // loop
-                _ => { recs.push(Rec { owner: nmx(*k), ty: 15, ttl: 99, rdata: { let mut v = vec![0, 5]; v.extend(w(&sub("mx"))); v } }) }
+                _ => {
+                    // the chain ends at a name with MX, NS-like and SRV data whose targets are in the zone and have addresses:
+                    // additional-section processing applies to the answer reached through the aliases as to a direct one
+                    let tgt = sub(&format!("tgt{}", ci));
+                    recs.push(Rec { owner: tgt.clone(), ty: 1, ttl: 98, rdata: addr_rdata(r, class) });
+                    recs.push(Rec { owner: nmx(*k), ty: 15, ttl: 99, rdata: { let mut v = vec![0, 5]; v.extend(w(&tgt)); v } });
+                    recs.push(Rec { owner: nmx(*k), ty: 33, ttl: 99, rdata: { let mut v = vec![0, 1, 0, 2, 0, 80]; v.extend(w(&tgt)); v } });
+                }
             }
         }
         // wildcard CNAME
